@@ -2,7 +2,7 @@
    evaluation of a is decided with fuel n, and the environments are related, then the optimized
    program evaluated with any fuel m >= n gives a related outcome (or is inexact: Unsup).
    Then: Opt.opt produces an optimized form in this sense. *)
-From P2 Require Import Base.Prelude Base.PreludeProofs Sem.Num Sem.Syntax Sem.Ops Sem.Lib Sem.Ref Sem.Gen Sem.Sim Sem.RelProofs Sem.GenProofs Sem.Opt Sem.OptRel Sem.OptRelProofs Sem.OptOpsProofs Sem.OptLibProofs.
+From P2 Require Import Base.Prelude Base.PreludeProofs Sem.Num Sem.Syntax Sem.Ops Sem.Lib Sem.Ref Sem.Gen Sem.Sim Sem.RelProofs Sem.GenProofs Sem.Opt Sem.OptRel Sem.OptRelProofs Sem.OptOpsProofs Sem.OptLibProofs Sem.RefMono Sem.OptWf.
 Require Import Lia.
 
 (* ---------- names, lookups ---------- *)
@@ -238,6 +238,9 @@ Proof. destruct r; reflexivity. Qed.
 Lemma rrel_oof_inv {A B} (Q : A -> B -> Prop) r : rrel Q r OOF -> r = OOF.
 Proof. inversion 1; reflexivity. Qed.
 
+Lemma rrel_ok_inv_r {A B} (Q : A -> B -> Prop) r b : rrel Q r (Ok b) -> exists a, r = Ok a /\ Q a b.
+Proof. inversion 1; subst. eauto. Qed.
+
 Lemma eval_0 env a : eval 0 env a = OOF.
 Proof. reflexivity. Qed.
 
@@ -279,7 +282,8 @@ Proof.
     | s fn fn' args args' Hfn IHfn Hargs
     | s f args args' Hargs
     | s recv recv' mname args args' Hrecv IHrecv Hargs
-    | s a t t' Ha IHa Hclosed Hseq ];
+    | s a t t' Ha IHa Hclosed Hseq
+    | s a t v Ha IHa Hclosed Hg ];
     intros env env' k Henv Hk D.
   - (* const *) destruct k as [|k]; [lia|]. right. constructor. auto.
   - (* ident *) destruct k as [|k]; [lia|]. rewrite !eval_S. cbn [ref_step].
@@ -453,6 +457,20 @@ Proof.
       intros EO. rewrite EO in Hr.
       assert (Es : eval (S n) env a = OOF) by (eapply rrel_oof_inv; exact Hr).
       rewrite Es in D. discriminate D.
+  - (* a value computed at Generate time *)
+    destruct Hg as (kg & v1 & Hev & Hrel).
+    specialize (IHa env env' k (env_rel_closed _ _ _ _ _ Hclosed Henv) Hk D).
+    destruct k as [|k]; [lia|]. rewrite eval_const.
+    assert (Et : eval (S k) env' t <> OOF -> eval (S k) env' t = Ok v1).
+    { intros N. rewrite <- (Hev env'). apply eval_agree; [rewrite Hev; discriminate|exact N]. }
+    destruct IHa as [U|Hr].
+    + exfalso. rewrite Et in U; [discriminate|]. rewrite U. discriminate.
+    + right. assert (N : eval (S k) env' t <> OOF).
+      { intros EO. rewrite EO in Hr.
+        assert (Es : eval (S n) env a = OOF) by (eapply rrel_oof_inv; exact Hr).
+        rewrite Es in D. discriminate D. }
+      rewrite (Et N) in Hr. destruct (rrel_ok_inv_r _ _ _ Hr) as (v0 & E0 & R0).
+      rewrite E0. constructor. eapply vrel_comp; eauto.
 Qed.
 
 End Sim.
